@@ -208,6 +208,99 @@ func framing(seqLen int) {
 	}
 }
 
+// refRead is the reference reader for the header-framed stream: what a conforming reader must report for
+// each frame of data. Header lines up to an empty line; Content-Length (exact name) must be present with a
+// positive 32-bit decimal; then exactly that many bytes, which must decode as a JSON-RPC message
+// (the stateless DecodeMessage is used for that last step). After the first error the stream is dead.
+func refRead(data []byte) (outcomes []string) {
+	for len(data) > 0 {
+		length := int64(0)
+		for {
+			i := bytes.IndexByte(data, '\n')
+			if i < 0 {
+				return append(outcomes, "error")
+			}
+			line := strings.TrimSpace(string(data[:i+1]))
+			data = data[i+1:]
+			if line == "" {
+				break
+			}
+			c := strings.IndexRune(line, ':')
+			if c < 0 {
+				return append(outcomes, "error")
+			}
+			if line[:c] == "Content-Length" {
+				v, err := strconv.ParseInt(strings.TrimSpace(line[c+1:]), 10, 32)
+				if err != nil || v <= 0 {
+					return append(outcomes, "error")
+				}
+				length = v
+			}
+		}
+		if length == 0 || int64(len(data)) < length {
+			return append(outcomes, "error")
+		}
+		if _, err := jsonrpc2.DecodeMessage(data[:length]); err != nil {
+			return append(outcomes, "error")
+		}
+		outcomes = append(outcomes, "message")
+		data = data[length:]
+	}
+	return append(outcomes, "error") // reading at EOF
+}
+
+// framedSequences: every sequence of whole units (valid frames, a frame whose header block lacks Content-Length,
+// a frame with only a Content-Type header, a truncated frame) must be reported exactly as the reference reader does.
+func framedSequences(n int) int {
+	ctx := context.Background()
+	body1 := `{"jsonrpc":"2.0","method":"m","params":{"a":1}}`
+	body2 := `{"jsonrpc":"2.0","id":2,"result":"ok"}`
+	frame := func(hdr, body string) string { return hdr + "\r\n" + body }
+	units := []string{
+		frame(fmt.Sprintf("Content-Length: %d\r\n", len(body1)), body1),
+		frame(fmt.Sprintf("Content-Length: %d\r\nContent-Type: application/vscode-jsonrpc; charset=utf-8\r\n", len(body2)), body2),
+		frame("Content-Type: x\r\n", body2), // no Content-Length
+		frame("", body1),                    // empty header block
+		frame(fmt.Sprintf("content-length: %d\r\n", len(body1)), body1),      // wrong case: not the header
+		frame(fmt.Sprintf("Content-Length: %d\r\n", len(body1)+5), body1),    // length beyond the body
+		frame(fmt.Sprintf("Content-Length: %d\r\n", len(body2)), body2)[:30], // truncated
+	}
+	count := 0
+	vlib.Seqs([]string{"0", "1", "2", "3", "4", "5", "6"}, n, func(_ string, idx []int) bool {
+		if len(idx) == 0 {
+			return true
+		}
+		count++
+		progress.Add(1)
+		frameEvals.Add(1)
+		frameNontrivial.Add(1)
+		var data []byte
+		for _, i := range idx {
+			data = append(data, units[i]...)
+		}
+		want := refRead(data)
+		for _, chunk := range []int{0, 1, 7} {
+			rs := jsonrpc2.NewStream(&chunkConn{data: data, fix: chunk})
+			var got []string
+			for k := 0; k < len(want)+2; k++ {
+				m, _, err := rs.Read(ctx)
+				if err != nil {
+					got = append(got, "error")
+					break
+				}
+				_ = m
+				got = append(got, "message")
+			}
+			if strings.Join(got, ",") != strings.Join(want, ",") {
+				run.Violation("framing-malformed-frame-accepted", fmt.Sprintf("units %v (chunks of %d): the stream reported %v, a conforming reader reports %v", idx, chunk, got, want), map[string]any{"units": idx, "bytes": string(data), "got": got, "want": want})
+				return true
+			}
+		}
+		return true
+	})
+	return count
+}
+
 func malformed(n int) int {
 	ctx := context.Background()
 	toks := []string{"Content-Length", "content-length", "Content-Type: x\r\n", ":", " ", "5", "0", "-1", "99", "abc", "\r\n", "\n", "{}", "{\"jsonrpc\":\"2.0\",\"id\":1}", "{\"jsonrpc\":\"2.0\",\"method\":\"m\"}", "\x00", "é"}
@@ -553,6 +646,7 @@ func main() {
 	if replayArg() == "" {
 		framing(run.Pick(2, 3))
 		nmal = malformed(run.Pick(4, 5))
+		run.Cov["framed_unit_sequences"] = framedSequences(run.Pick(3, 4))
 	}
 	progress.Store(-1 << 40)
 
